@@ -7,17 +7,19 @@ extraction in C01/C02/C04/C10/C12, both builds are proved equal to one specifica
    so this is "SIMD result == pure result" bit-for-bit for the component-wise, integer, bitwise, comparison, selection,
    rounding-to-integer and single-rounded classes, and for branch decisions (kind F contracts of C12: refract zero, faceforward);
  * kind R contracts of C02/C04/C10/C12: multi-term float expressions equal the textbook definition as real functions;
- * where the pure *vector* code is not the scalar overload (fma: a * b + c against std::fma) or the SIMD code replaces an exact
-   operation by a hardware approximation (normalize: rsqrtps), a cross-build relational contract (rel=) compares the SIMD
-   extraction with the GLM_FORCE_PURE extraction of the same shim at the same ISA flags.
+ * where that argument does not apply, a cross-build relational contract (rel=) compares the SIMD extraction with the
+   GLM_FORCE_PURE extraction of the same shim at the same ISA flags, bit for bit (NaN == NaN): fma (own shims: the pure vector
+   code is a * b + c, the scalar overload std::fma, so C01 has no bitwise fma contract), normalize(vec4) (the SIMD code replaces
+   1/sqrt by rsqrtps), refract/faceforward(vec4) (the branch decision including NaN, which the C12 clauses do not pin).
 
 Adaptations of the reused clauses (each with its reason, none weakens what the property statement demands):
- * float results are compared with cspec_same32 (same bits, or both NaN): which NaN (sign, payload) an operation returns is not a
-   value (HOWTO: "NaN results: speak of x != x, not of NaN bits"); MINPS/MAXPS/ANDPS and the scalar code legitimately differ there;
+ * C01's "identical values" (same bits, or both NaN; fmin/fmax/fclamp: or both zero, whose sign C leaves unspecified) is re-spelt
+   through cspec_same32 / cspec_samev32: same predicate, the scalar overload is evaluated once instead of 3-5 times;
  * C01 spells the decrement clause SPEC_FSUB32(a, 1.0f); clang canonicalises x - 1.0f to fadd x, -1.0f in BOTH builds, and
    IEEE x - c == x + (-c), so the clause is re-spelt SPEC_FADD32(a, -1.0f) (same value, same abstraction as the code);
  * abs(ivec4): the pure code (x ^ (x >> 31)) - (x >> 31) overflows (undefined) for INT_MIN, there is no pure value to compare
-   with: requires x != INT_MIN (the documented domain of abs).
+   with: requires x != INT_MIN (the documented domain of abs);
+ * SSE2 floor/ceil/round/fract/mod/...(vec4): + and - are not abstracted (the (x + 2^23) - 2^23 fallback needs exact adders).
 Everything that is not claimed is listed in EXCLUDE with its reason and repeated in P.not_covered."""
 import importlib, re, copy
 from engine import Prop
@@ -40,13 +42,6 @@ EXCLUDE = [
     (r'^glm_(min|max|clamp)_(i32|u32)_', r'^sse2$',
      'integer min/max/clamp of ivec4/uvec4 at SSE2: func_common_simd.inl uses _mm_min/max_epi32/_epu32 (SSE4.1) unconditionally, the instantiation '
      'does not compile at -msse2 (compile-time defect, nothing to verify)'),
-    (r'^glm_fma_f32_vvv_v[34]$', r'.',
-     'fma(vec3/vec4) against the scalar overload: the pure vector code is a * b + c (two roundings) while the scalar overload is std::fma (one '
-     'rounding), so "vector == scalar overload" does not hold in the pure build either (C01); claimed instead: SIMD fma == pure vector fma, '
-     'bitwise (relational contracts glm_fma_f32_vvv_v3/v4 against the GLM_FORCE_PURE extraction)'),
-    (r'^glm_op_(div|mod)_(i32|u32)_', r'.',
-     'integer / and % of aligned ivec/uvec: no SIMD code in this tree (_mm_div_epi32 is MSVC-only; compute_vec_div/mod<.., true> forward to the '
-     'generic loop) and the z3/SAT portfolio does not decide the divider equivalence on the vectorised extraction within the tier timeouts'),
     (r'^glm_op_mul_(i32|u32)_', r'.',
      'integer * of aligned ivec/uvec (SSE2: _mm_mul_epu32 on even/odd lanes + shuffles; SSE4.1/AVX2: _mm_mullo_epi32): the bit-vector multiplier '
      'equivalence with the 32-bit product is not decided reliably (z3 answered the vv forms at SSE4.1 in 25-81 s in one run and hit the 900 s '
@@ -77,12 +72,11 @@ EXCLUDE = [
 # Shims whose excluded contract is replaced by a cross-build relational contract "SIMD extraction == GLM_FORCE_PURE extraction, bitwise
 # (NaN == NaN)": (regex over the function name, regex over the ISA tag, number of leading out[] elements compared or None = all)
 REL = [
-    (r'^glm_fma_f32_vvv_v[34]$', r'.', None),
     (r'^glm_normalize_v4_f32$', r'.', None),
     (r'^glm_(refract|faceforward)_bits_v4_f32$', r'.', 4),
 ]
 # expensive obligations measured on the SIMD extractions: thorough tier only (regex over the function name)
-SLOW = r'^glm_mirrorRepeat_f32_v_v4$'
+SLOW = r'^glm_mirrorRepeat_f32_v_v4$|^glm_(mul_scalar|scalar_mul|add_scalar)_m4x4_f32$|^glm_refract_snell_v3_f32$'
 
 P.reused = []
 P.skipped_sources = []
@@ -112,7 +106,25 @@ def excluded(fn, isa):
 
 
 def same32(e):
-    """bitwise float equality of a C01 clause -> same bits or both NaN"""
+    """C01 spells "identical values" as  (bits(O) == bits(X) || (O != O && X != X))  [ || (O == 0 && X == 0) for fmin/fmax ], which
+    evaluates the scalar overload X three (five) times; the same predicate through the spec functions cspec_same32 / cspec_samev32
+    (same bits or both NaN / numerically equal or both NaN) evaluates it once - the SAT instances are 2-3 times smaller"""
+    m = re.match(r'^\(*ll2c_f32_bits\((out\[\d+\]|RESULT)\) == ll2c_f32_bits\(', e)
+    if not m:
+        return e
+    O = m.group(1)
+    head = '(ll2c_f32_bits(%s) == ll2c_f32_bits(' % O
+    sep = ') || (%s != %s && ' % (O, O)
+    for zero in (False, True):
+        body = e[1:] if zero else e
+        if not body.startswith(head) or sep not in body:
+            continue
+        X = body[len(head):body.index(sep)]
+        plain = head + X + sep + X + ' != ' + X + '))'
+        if not zero and body == plain:
+            return 'cspec_same32(%s, %s)' % (O, X)
+        if zero and body == plain + ' || (%s == 0 && %s == 0))' % (O, X):
+            return 'cspec_samev32(%s, %s)' % (O, X)
     m = re.match(r'^ll2c_f32_bits\((out\[\d+\]|RESULT)\) == ll2c_f32_bits\((.*)\)$', e)
     return 'cspec_same32(%s, %s)' % (m.group(1), m.group(2)) if m else e
 
@@ -129,7 +141,7 @@ def adapt(modname, c2, isa):
             # C (F.10.9.2) and LLVM minnum/maxnum leave the sign of fmin/fmax(+0, -0) unspecified: the compiler may commute the operands of the
             # vectorised call, so neither build has a defined zero sign there (the T-check tolerates it for the same reason): numeric equality
             ens = [(n, e.replace('cspec_same32(', 'cspec_samev32(')) for n, e in ens]
-        if isa == 'sse2' and re.match(r'^glm_(floor|ceil|round|fract|mod|repeat|mirrorClamp|mirrorRepeat|iround|uround)_f32_', c2.fn):
+        if isa == 'sse2' and re.match(r'^glm_(floor|ceil|round|fract|mod|repeat|mirrorClamp|mirrorRepeat|iround|uround)_f32_.*_v4$', c2.fn):
             # the SSE2 fallback of glm_vec4_round is (x + 2^23) - 2^23: it only means something with exact adders, so + and - are not
             # abstracted here (* and / still are, on both sides)
             c2.uf_float = tuple(u for u in c2.uf_float if u not in ('fadd', 'fsub'))
@@ -212,6 +224,26 @@ for modname, rx, quick_isa, simd_rx in SOURCES:
             adapt(modname, c2, isa)
             P.contracts.append(c2)
             P.reused.append((modname, c.fn, isa))
+
+# fma(vec3/vec4): C01 does not claim "vector == scalar overload" for fma (the pure vector code is a * b + c, the scalar overload std::fma), so the
+# shims live here: SIMD fma == GLM_FORCE_PURE vector fma, bit for bit (NaN == NaN), at the same ISA flags
+from shimgen import vec_ins, vec_make, vec_store
+dfma = P.driver('c03_fma', ['<glm/glm.hpp>'])
+for L in (3, 4):
+    dfma.shim('glm_fma_f32_vvv_v%d' % L, 'void', vec_ins(L, 'f32', 'a') + vec_ins(L, 'f32', 'b') + vec_ins(L, 'f32', 'c'),
+              'auto r = glm::fma(%s, %s, %s); %s' % (vec_make(L, 'f32', 'a'), vec_make(L, 'f32', 'b'), vec_make(L, 'f32', 'c'), vec_store(L, 'r')),
+              outs=[('float', 'out', L)])
+for isa, flags in ISA.items():
+    sb = P.build(dfma, 'flat', defines=list(SIMD_DEFS), flags=list(flags), tag='c03_fma_%s_rel' % isa)
+    pb = P.build(dfma, 'flat', defines=['GLM_FORCE_PURE'], flags=list(flags), tag='c03_fma_%s_pure' % isa)
+    for L in (3, 4):
+        fn = 'glm_fma_f32_vvv_v%d' % L
+        args = ', '.join(nm for _, nm in dfma.shims[fn].view_sig()['ins'])
+        P.contracts.append(Contract(fn, '[SIMD %s vs GLM_FORCE_PURE] glm/detail/func_common_simd.inl  compute_fma<%d, float, Q, true> (glm_vec4_fma)' % (isa, L),
+                                    ensures=[('simd_out_%d_is_pure_out_%d' % (i, i), 'cspec_same32(out[%d], R_%s__o0_%d(%s))' % (i, fn, i, args)) for i in range(L)],
+                                    build=sb.tag, rel=(pb.tag, [fn]), unwind=12, uf_float=('fmul', 'fdiv', 'fadd', 'fsub', 'sqrt'), timeout=300,
+                                    tier='quick' if isa in ('sse2', 'sse41') else 'thorough'))
+        P.reused.append(('C03', fn + ' [rel]', isa))
 
 P.level_text = ('the value contracts of C01 (vector op == scalar overload, bitwise), C12/C10/C02/C04 (textbook definitions over the reals, plus the '
                 'bit-exact branch facts of C12) are enforced on SIMD extractions (GLM_FORCE_INTRINSICS + aligned default types) at SSE2, SSE4.1 and '
